@@ -100,9 +100,9 @@ var roles = map[string]methodRole{
 	"GetTag": {Repos: []int{1}}, "ResolveBlob": {Repos: []int{1}}, "ResolveManifest": {Repos: []int{1}},
 	"ResolveTag": {Repos: []int{1}}, "PushBlob": {Repos: []int{1}}, "PushBlobChunked": {Repos: []int{1}},
 	"PushBlobChunkedResume": {Repos: []int{1}}, "PushManifest": {Repos: []int{1}},
-	"MountBlob":   {Repos: []int{1, 2}},
-	"DeleteBlob":  {Repos: []int{1}}, "DeleteManifest": {Repos: []int{1}}, "DeleteTag": {Repos: []int{1}},
-	"Tags":        {Repos: []int{1}}, "Referrers": {Repos: []int{1}},
+	"MountBlob":  {Repos: []int{1, 2}},
+	"DeleteBlob": {Repos: []int{1}}, "DeleteManifest": {Repos: []int{1}}, "DeleteTag": {Repos: []int{1}},
+	"Tags": {Repos: []int{1}}, "Referrers": {Repos: []int{1}},
 	"Repositories": {Cursor: 1},
 }
 
@@ -159,6 +159,11 @@ func constructorResultTypes(fn *ssa.Function) []types.Type {
 // declaredMethod returns the SSA function for method name declared directly
 // on T (or *T), or nil if the method is promoted / missing.
 func declaredMethod(c *core.Ctx, T types.Type, name string) *ssa.Function {
+	if !token.IsExported(name) {
+		if f := c.P.Method(T, name); f != nil {
+			return f
+		}
+	}
 	ms := c.P.SSA.MethodSets.MethodSet(T)
 	for i := 0; i < ms.Len(); i++ {
 		sel := ms.At(i)
@@ -208,7 +213,7 @@ func isNamed(t types.Type, pkgSuffix, name string) bool {
 		return false
 	}
 	o := n.Obj()
-	return o.Name() == name && o.Pkg() != nil && strings.HasSuffix(o.Pkg().Path(), pkgSuffix)
+	return canonTypeName(n) == name && o.Pkg() != nil && strings.HasSuffix(o.Pkg().Path(), pkgSuffix)
 }
 
 // backendCalls lists every invoke of an Interface / sub-interface method on a
